@@ -1,6 +1,343 @@
+"""C01 part 1 (recognition: the grammar maps every ISA mnemonic and operand spelling to the enum value the encoder rows are keyed on)
+and part 3 (glue: the bytes returned by the encoder are the bytes that reach BuildResult.code)."""
+import re
+
+import encoder as E
+import grammar
+import graph as G
+import mirutil as MU
+import peg
+from common import loc_of
+
+
+def from_str_pairs(P, ty):
+    """{accepted string: variant name} read from the MIR of the strum-generated <ty as FromStr>::from_str"""
+    key = "<%s as std::str::FromStr>::from_str" % ty
+    b = P.body.get(key)
+    if b is None:
+        return None
+    out = {}
+    for bl in b["blocks"]:
+        t = bl["term"]
+        if t["k"] != "call" or not MU.callee_names(t)[1].endswith("PartialEq for str>::eq"):
+            continue
+        lits = [a["const"]["str"] for a in t["args"] if "const" in a and "str" in a["const"]]
+        if len(lits) != 1 or t.get("target") is None:
+            return None
+        sw = b["blocks"][t["target"]]["term"]
+        if sw["k"] != "switch":
+            return None
+        tg = {int(v): x for v, x in sw["targets"]}
+        true_bb = sw["otherwise"] if 0 in tg else tg.get(1)
+        # the variant built on the true edge
+        vname = None
+        cur = true_bb
+        for _ in range(3):
+            for st in b["blocks"][cur]["stmts"]:
+                if st["k"] == "assign" and st["rv"]["k"] == "agg" and st["rv"]["kind"].get("path") == ty:
+                    vname = st["rv"]["kind"].get("vname")
+            if vname or b["blocks"][cur]["term"]["k"] != "goto":
+                break
+            cur = b["blocks"][cur]["term"]["target"]
+        if vname is None:
+            return None
+        if lits[0] in out and out[lits[0]] != vname:
+            return None
+        out[lits[0]] = vname
+    return out
+
+
+OPN = "instruction::operation::"
+
+
 def recognition(P, rep):
-    pass
+    g, problems = grammar.load_checked(P)
+    for pr in problems:
+        rep.unprovable("C01.recog|grammar-cross-check", pr)
+    pairs = {n: from_str_pairs(P, ty) for n, ty in (("Operation", OPN + "Operation"), ("BranchT", OPN + "BranchT"), ("SFlags", OPN + "SFlags"),
+                                                    ("Reg8", "instruction::register::Reg8"), ("Reg16", "instruction::register::Reg16"))}
+    for n, pr in pairs.items():
+        if not pr:
+            rep.unprovable("C01.recog|from_str|%s" % n, "the (string -> variant) table of %s::from_str could not be read from its MIR" % n)
+            return
+
+    def cond(rule, action, caps):
+        m = re.search(r"(\w+)::from_str\(\s*(\w+)", action["text"])
+        if m and m.group(1) in pairs and m.group(2) in caps:
+            txt = caps[m.group(2)]
+            if "to_lowercase" in action["text"]:
+                txt = txt.lower()
+            return txt in pairs[m.group(1)]
+        return None
+
+    spec = E.isa()
+    seen = set()
+    n = 0
+    for r in spec["rows"]:
+        mn = r["mn"]
+        if mn in seen:
+            continue
+        seen.add(mn)
+        n += 1
+        tr = peg.full_match(g, "standard_operation", mn, cond)
+        key = "C01.recog|mnemonic|%s" % mn
+        if tr is None:
+            rep.ob(key, False, "the mnemonic `%s` is not recognised by standard_operation (an earlier alternative or literal shadows it, or it is missing): it would be taken for a macro call" % mn)
+            continue
+        acts = [a for a in tr.actions if a[0] == "standard_operation"]
+        if len(acts) != 1:
+            rep.unprovable(key, "could not identify the alternative of standard_operation that recognises `%s`" % mn)
+            continue
+        text, caps = acts[0][1], acts[0][2]
+        m2 = re.search(r"Operation::(\w+)\(\s*(\w+)::from_str\(\s*(\w+)\s*\)", text)
+        m1 = re.search(r"Operation::from_str\(\s*(\w+)\s*\)", text)
+        got = None
+        if m2 and m2.group(3) in caps:
+            got = (m2.group(1), pairs.get(m2.group(2), {}).get(caps[m2.group(3)]))
+        elif m1 and m1.group(1) in caps:
+            got = (pairs["Operation"].get(caps[m1.group(1)]), None)
+        want = (r["op"], r["sub"])
+        rep.ob(key, got == want, "`%s` is recognised as Operation::%s%s" % (mn, want[0], "(%s)" % want[1] if want[1] else "") if got == want else
+               "`%s` is recognised as %s, the encoder row for it is keyed on %s" % (mn, got, want), detail={"action": text[:120], "captures": caps})
+        # the line-level rule lower-cases an identifier and hands it to standard_operation: both letter cases must reach it whole
+        for sp in (mn, mn.upper()):
+            tr2 = peg.full_match(g, "ident", sp)
+            rep.ob("C01.recog|ident|%s" % sp, tr2 is not None, "`%s` is one identifier for the line parser" % sp if tr2 else
+                   "`%s` is not matched as one identifier, so operation() never sees the whole mnemonic" % sp, nontrivial=False)
+    rep.floor("mnemonics checked for recognition", n, 110)
+    op_rule = g.rules.get("operation")
+    acts = g.find(op_rule["expr"], lambda x: x[0] == "seq" and x[2] is not None) if op_rule else []
+    txt = " ".join(a[2]["text"] for a in acts)
+    okop = "standard_operation(" in txt and "to_lowercase()" in txt and "Operation::Custom" in txt
+    rep.ob("C01.recog|operation-dispatch", okop, "operation() lower-cases the identifier, tries standard_operation and only then falls back to a macro call" if okop else
+           "operation() no longer lower-cases the identifier and tries standard_operation before falling back to a macro call")
+
+    # registers
+    r8 = P.lib.adts["instruction::register::Reg8"]
+    discr = {v["name"]: int(v["discr"]) for v in r8["variants"]}
+    nreg = 0
+    for i in range(32):
+        for sp in ("r%d" % i, "R%d" % i):
+            nreg += 1
+            tr = peg.full_match(g, "reg8", sp, cond)
+            v = pairs["Reg8"].get(sp.lower())
+            ok = tr is not None and not tr.unknown_conditions and v is not None and discr.get(v) == i
+            rep.ob("C01.recog|reg8|%s" % sp, ok, "`%s` is register %d" % (sp, i) if ok else
+                   "`%s` is not recognised as register %d (matched: %s, from_str gives %s with number %s)" % (sp, i, tr is not None, v, discr.get(v)))
+        tr = peg_full_ops(g, "r%d" % i, cond)
+        first = tr.actions[-1][1] if tr and tr.actions else ""
+        rep.ob("C01.recog|operand-order|r%d" % i, "InstructionOps::R8" in first, "`r%d` as an operand is a register, not an expression identifier" % i if "InstructionOps::R8" in first else
+               "`r%d` as an operand is not parsed as a register (instruction_ops tries another alternative first): %s" % (i, first[:60]), nontrivial=False)
+    for sp in "xyzXYZ":
+        tr = peg.full_match(g, "reg16", sp, cond)
+        v = pairs["Reg16"].get(sp.lower())
+        ok = tr is not None and v == sp.upper()
+        rep.ob("C01.recog|reg16|%s" % sp, ok, "`%s` is pointer register %s" % (sp, sp.upper()) if ok else "`%s` is not recognised as pointer register %s (from_str gives %s)" % (sp, sp.upper(), v))
+    # addressing forms
+    forms = [("-x", "PreDecrement"), ("x+", "PostIncrement("), ("y+5", "PostIncrementE"), ("z", "IndexOps::None"), ("Z+", "PostIncrement("), ("-Y", "PreDecrement")]
+    for sp, ctor in forms:
+        tr = peg_index(g, sp, cond)
+        got = tr.actions[-1][1] if tr and tr.actions else None
+        ok = got is not None and ctor in got and (ctor != "PostIncrement(" or "PostIncrementE" not in got)
+        rep.ob("C01.recog|index|%s" % sp, ok, "`%s` is the addressing form %s" % (sp, ctor.rstrip("(")) if ok else
+               "`%s` is not parsed as %s (an earlier alternative of index_ops shadows it): %s" % (sp, ctor.rstrip("("), (got or "no match")[:60]))
+        tr = peg_full_ops(g, sp, cond)
+        got = [a for a in tr.actions if a[0] == "instruction_ops"][-1][1] if tr and [a for a in tr.actions if a[0] == "instruction_ops"] else None
+        rep.ob("C01.recog|operand-order|%s" % sp, got is not None and "InstructionOps::Index" in got, "`%s` as an operand is an addressing form" % sp if got and "InstructionOps::Index" in got else
+               "`%s` as an operand is not parsed as an addressing form: %s" % (sp, (got or "no match")[:60]), nontrivial=False)
+    rep.count("register spellings checked", nreg)
+
+
+def peg_index(g, s, cond):
+    """index_ops contains expr() (a precedence climber the matcher does not model): `y+5` is matched with the expression replaced by a
+    number token, which is all the addressing-form decision depends on"""
+    g2 = _with_simple_expr(g)
+    return peg.full_match(g2, "index_ops", s, cond)
+
+
+def peg_full_ops(g, s, cond):
+    return peg.full_match(_with_simple_expr(g), "instruction_ops", s, cond)
+
+
+def _with_simple_expr(g):
+    if getattr(g, "_simple", None) is None:
+        rules = dict(g.rules)
+        rules["expr"] = {"expr": ("rep", ("class", (("0", "9"), ("a", "z"), ("A", "Z"), ("_", "_")), False, False), 1, None, None), "ret": None}
+        g._simple = peg.Grammar(rules, g.order, g.src, g.path)
+    return g._simple
+
+
+# ------------------------------------------------------------------------------------------------ glue
+def _ok_payload_locals(b, call_bb):
+    """locals that hold the Ok payload of the Result returned by the call at call_bb (match arm binding / `?` value)"""
+    r = MU.result_edges(b, call_bb)
+    if not r or r.get("ok") is None:
+        return None, None
+    t = b["blocks"][call_bb]["term"]
+    holders = {t["dest"]["local"]}
+    out = set()
+    changed = True
+    while changed:
+        changed = False
+        for bl in b["blocks"]:
+            for st in bl["stmts"]:
+                if st["k"] != "assign" or st["rv"]["k"] != "use" or st["place"]["proj"]:
+                    continue
+                pl = MU.op_place(st["rv"]["op"])
+                if pl is None:
+                    continue
+                l = st["place"]["local"]
+                if pl["local"] in holders and not pl["proj"] and l not in holders:
+                    holders.add(l)
+                    changed = True
+                elif pl["local"] in holders and [e["k"] for e in pl["proj"]] == ["downcast", "field"] and pl["proj"][0]["v"] == 0 and l not in out:
+                    out.add(l)
+                    changed = True
+                elif pl["local"] in out and not pl["proj"] and l not in out:
+                    out.add(l)
+                    changed = True
+            tt = bl["term"]
+            if tt["k"] == "call" and MU.callee_names(tt)[1].endswith("as std::ops::Try>::branch") and tt["args"]:
+                pl = MU.op_place(tt["args"][0])
+                if pl and pl["local"] in holders and tt["dest"]["local"] not in holders:
+                    holders.add(tt["dest"]["local"])
+                    changed = True
+    _ok_payload_locals.holders = holders
+    return out, r
+
+
+def _is_payload(ch, a, payload, holders):
+    r = ch.root(a, through_calls=False)
+    if r[0] in payload:
+        return True
+    if r[0] in holders:
+        dc = [e for e in r[1] if e["k"] == "downcast"]
+        return bool(dc) and all(e["v"] == 0 for e in dc)
+    return False
+
+
+def _appended_to(P, k, b, payload):
+    """(receiver root local, other uses) for the payload: the Vec::extend call that takes it by value, and every other call that takes it"""
+    ch = MU.Chaser(b)
+    recv = None
+    others = []
+    for bb, t, name, tg in P.call_sites(k):
+        for i, a in enumerate(t["args"]):
+            pl = MU.op_place(a)
+            if pl is None:
+                continue
+            if pl["local"] in payload or _is_payload(ch, a, payload, _ok_payload_locals.holders):
+                rp = MU.callee_names(t)[1]
+                if re.search(r"Vec<T, A> as std::iter::Extend<.*>>::extend$|Vec::<T, A>::append$|Vec::<T, A>::extend_from_slice$", rp) and i == 1:
+                    recv = ch.root(t["args"][0], through_calls=False)[0]
+                elif re.search(r"::len$|::is_empty$|as std::ops::Deref>::deref$|as std::ops::Drop>::drop$|::drop_in_place", rp):
+                    pass
+                else:
+                    others.append(rp)
+    return recv, others
 
 
 def glue(P, rep):
-    pass
+    k2 = "builder::pass2::pass_2_internal"
+    kb = "builder::pass2::build_pass_2"
+    kf = "builder::build_from_parsed"
+    for k in (k2, kb, kf):
+        if k not in P.body:
+            rep.unprovable("C01.glue|anchor|%s" % k, "%s not found" % k)
+            return
+    # link 1: process(..) -> Ok payload -> fragment.extend(payload); fragment is what pass_2_internal returns
+    b = P.body[k2]
+    sites = [bb for bb, t, n, tg in P.call_sites(k2) if "instruction::process" in tg]
+    ok1 = bool(sites)
+    why = []
+    frag = None
+    for bb in sites:
+        payload, r = _ok_payload_locals(b, bb)
+        if not payload:
+            ok1 = False
+            why.append("the Ok value of process() is not bound")
+            continue
+        recv, others = _appended_to(P, k2, b, payload)
+        if recv is None:
+            ok1 = False
+            why.append("the bytes returned by process() are not appended to the fragment")
+        if others:
+            ok1 = False
+            why.append("the bytes returned by process() also go through %s before they are appended" % sorted(set(others))[:2])
+        frag = recv
+    rep.ob("C01.glue|process->fragment", ok1, "the byte vector returned by process() is appended unchanged (Vec::extend) to the fragment" if ok1 else "; ".join(why) or "no call of process() in pass 2",
+           loc=loc_of(b["span"]))
+    # link 2: the fragment is the returned value
+    ret_ok = False
+    ch = MU.Chaser(b)
+    for bl in b["blocks"]:
+        for st in bl["stmts"]:
+            if st["k"] == "assign" and st["place"]["local"] == 0 and st["rv"]["k"] == "agg" and st["rv"]["kind"].get("vname") == "Ok":
+                root = ch.root(st["rv"]["ops"][0], through_calls=False)[0]
+                if root == frag and frag is not None:
+                    ret_ok = True
+                elif st["rv"]["ops"] and MU.op_place(st["rv"]["ops"][0]):
+                    ret_ok = ret_ok and False
+    rep.ob("C01.glue|fragment->return", ret_ok, "pass_2_internal returns that fragment" if ret_ok else "the value pass_2_internal returns on success is not the fragment the encoder's bytes were appended to")
+    # link 3: build_pass_2: fragment -> code.extend(fragment) -> BuildResultPass2.code
+    b = P.body[kb]
+    sites = [bb for bb, t, n, tg in P.call_sites(kb) if k2 in tg]
+    ok3 = bool(sites)
+    why = []
+    code_local = None
+    ch = MU.Chaser(b)
+    for bb in sites:
+        payload, r = _ok_payload_locals(b, bb)
+        if not payload:
+            ok3 = False
+            why.append("the Ok value of pass_2_internal is not bound")
+            continue
+        recvs = set()
+        others = []
+        holders3 = set(_ok_payload_locals.holders)
+        for bbx, t, name, tg in P.call_sites(kb):
+            for i, a in enumerate(t["args"]):
+                pl = MU.op_place(a)
+                if pl is None:
+                    continue
+                if pl["local"] in payload or _is_payload(ch, a, payload, holders3):
+                    rp = MU.callee_names(t)[1]
+                    if re.search(r"Vec<T, A> as std::iter::Extend<.*>>::extend$", rp) and i == 1:
+                        recvs.add(ch.root(t["args"][0], through_calls=False)[0])
+                    elif not re.search(r"::len$|::is_empty$|Deref>::deref$|Drop>::drop$|::drop_in_place", rp):
+                        others.append(rp)
+        if others:
+            ok3 = False
+            why.append("the fragment goes through %s" % sorted(set(others))[:2])
+        code_local = recvs
+    fields = [f["name"] for f in P.lib.adts["builder::pass2::BuildResultPass2"]["variants"][0]["fields"]]
+    agg_ok = False
+    for bl in b["blocks"]:
+        for st in bl["stmts"]:
+            if st["k"] == "assign" and st["rv"]["k"] == "agg" and st["rv"]["kind"].get("path") == "builder::pass2::BuildResultPass2":
+                root = ch.root(st["rv"]["ops"][fields.index("code")], through_calls=False)[0]
+                agg_ok = code_local is not None and root in code_local
+    rep.ob("C01.glue|fragment->code", ok3 and agg_ok, "build_pass_2 appends every code fragment unchanged to the vector that becomes BuildResultPass2.code" if ok3 and agg_ok else
+           "; ".join(why) or "BuildResultPass2.code is not the vector the code fragments were appended to")
+    # link 4: build_from_parsed: BuildResult.code = passed_2.code
+    b = P.body[kf]
+    ch = MU.Chaser(b)
+    fields = [f["name"] for f in P.lib.adts["builder::BuildResult"]["variants"][0]["fields"]]
+    f2 = [f["name"] for f in P.lib.adts["builder::pass2::BuildResultPass2"]["variants"][0]["fields"]]
+    sites = [bb for bb, t, n, tg in P.call_sites(kf) if kb in tg]
+    payload = set()
+    for bb in sites:
+        pl, r = _ok_payload_locals(b, bb)
+        payload |= pl or set()
+        payload |= _ok_payload_locals.holders if pl else set()
+    ok4 = False
+    for bl in b["blocks"]:
+        for st in bl["stmts"]:
+            if st["k"] == "assign" and st["rv"]["k"] == "agg" and st["rv"]["kind"].get("path") == "builder::BuildResult":
+                r = ch.root(st["rv"]["ops"][fields.index("code")], through_calls=False)
+                pf = [e for e in r[1] if e["k"] in ("field", "downcast")]
+                # pass 2's Ok value (possibly still inside the Result / ControlFlow it came in: variant 0, field 0), then its field `code`
+                inner = [(e["k"], e.get("v", e.get("i"))) for e in pf]
+                ok4 = r[0] in payload and inner[-1:] == [("field", f2.index("code"))] and all(x in (("downcast", 0), ("field", 0)) for x in inner[:-1])
+    rep.ob("C01.glue|code->BuildResult", ok4, "BuildResult.code is moved out of pass 2's result unchanged" if ok4 else
+           "BuildResult.code is not the code vector pass 2 returned")
